@@ -205,6 +205,22 @@ func (o op) String() string {
 	return fmt.Sprintf("%s%s(%q,%q)", n, []string{"", "BytesK", "BytesV", "BytesKV"}[o.API], o.Key, o.Val)
 }
 
+// sm64 is a splitmix64 generator for the harness-side choices, so that the
+// operation sequence of a case depends only on r.Rand("seq", i).
+type sm64 uint64
+
+func (s *sm64) next() uint64 {
+	*s += 0x9e3779b97f4a7c15
+	z := uint64(*s)
+	z = (z ^ (z >> 30)) * 0xbf58476d1ce4e5b9
+	z = (z ^ (z >> 27)) * 0x94d049bb133111eb
+	return z ^ (z >> 31)
+}
+
+func (s *sm64) Intn(n int) int { return int(s.next() % uint64(n)) }
+
+var staleValues = []string{"stale", "7", "a=1", "Foo-Bar", "close", "old value", ""}
+
 func scribble(b []byte) {
 	for i := range b {
 		b[i] = 'Z'
@@ -311,6 +327,7 @@ type caseState struct {
 	log  []op
 	ctr  int
 
+	aux    sm64     // harness-side choices (probe spellings, API variant of Peek, recycled objects): never touches the op stream
 	probes []string // names probed after every operation (norm off: every spelling)
 	pbuf   []string
 	kb     []byte
@@ -324,7 +341,7 @@ func (c *caseState) probeNames() []string {
 	c.pbuf = c.pbuf[:0]
 	for _, n := range baseNames {
 		sp := spellingTable[n]
-		c.pbuf = append(c.pbuf, sp[c.rnd.Intn(len(sp))])
+		c.pbuf = append(c.pbuf, sp[c.aux.Intn(len(sp))])
 	}
 	return c.pbuf
 }
@@ -344,7 +361,7 @@ func observedOrdinary(h hdr, req bool) []field {
 // are excluded from judgement (framing fields after a round trip).
 func (c *caseState) verify(h hdr, m *model, skip map[string]bool) []mismatch {
 	names := c.probeNames()
-	bits := c.rnd.Uint64()
+	bits := c.aux.next()
 	c.ev["peeks_compared"] += 2 * len(names)
 	c.ev["peekkeys_compared"]++
 	if c.fastOK(h, m, skip, names, bits) {
@@ -768,7 +785,7 @@ func (c *caseState) roundTrip(h hdr, m *model) {
 
 	// 2. read back.
 	h2 := newHdr(c.req)
-	if c.rnd.Intn(2) == 0 { // a used reader, as in a pooled server
+	if c.aux.Intn(2) == 0 { // a used reader, as in a pooled server
 		h2.Set("A", "stale")
 		h2.Add("Stale", "1")
 	}
@@ -825,13 +842,13 @@ func (c *caseState) pickName() string {
 }
 
 func (c *caseState) prepare(h hdr, noDefCT bool) {
-	if c.rnd.Intn(2) == 0 { // a recycled object
-		if c.rnd.Intn(2) == 0 {
+	if c.aux.Intn(2) == 0 { // a recycled object
+		if c.aux.Intn(2) == 0 {
 			h.DisableNormalizing()
 		}
-		for k := c.rnd.Intn(5); k > 0; k-- {
-			n := baseNames[c.rnd.Intn(len(baseNames))]
-			h.Add(n, genValue(c.rnd, n, new(int)))
+		for k := c.aux.Intn(5); k > 0; k-- {
+			n := baseNames[c.aux.Intn(len(baseNames))]
+			h.Add(n, staleValues[c.aux.Intn(len(staleValues))])
 		}
 		h.Reset()
 		c.ev["recycled_headers"]++
@@ -864,6 +881,7 @@ func runCase(r *mon.Run, i int, ev map[string]int) {
 			}
 		}
 	}
+	c.aux = sm64(c.rnd.Uint64())
 	noDefCT := c.rnd.Intn(4) == 0
 	h := newHdr(c.req)
 	c.prepare(h, noDefCT)
@@ -945,8 +963,8 @@ func runCase(r *mon.Run, i int, ev map[string]int) {
 		case x < 6:
 			// CopyTo into a (possibly used) header; optionally continue on the copy.
 			dst := newHdr(c.req)
-			c.prepare(dst, c.rnd.Intn(2) == 0)
-			if c.rnd.Intn(2) == 0 {
+			c.prepare(dst, c.aux.Intn(2) == 0)
+			if c.aux.Intn(2) == 0 {
 				dst.Add("X", "old")
 				dst.Set("Content-Type", "old/type")
 				dst.Add("A", "old")
